@@ -220,7 +220,7 @@ def run_property(prop, tier, workdir, facts_cache):
         'level': 'other',
         'coverage': {
             'explanation': doc.get('explanation', ''),
-            'decided': doc.get('decided', []),
+            'decided': doc.get('decided', []) or ['%s: %s' % (r, d['desc']) for r, d in sorted(per_rule.items()) if d.get('desc')],
             'not_decided': doc.get('not_decided', []),
             'obligations': obligations,
             'discharged': discharged,
